@@ -153,6 +153,7 @@ func (r *runner) runSession(s session) M {
 		}
 		phase := "parse"
 		csBefore := len(cs)
+		dsBefore := len(ds)
 		func() {
 			defer func() {
 				if e := recover(); e != nil {
@@ -189,10 +190,10 @@ func (r *runner) runSession(s session) M {
 				phase = "rewrite"
 				st = st.STRewrite(node.SymTbl{})
 				phase = "compile"
-				if s.Mode == "discard" {
-					node.ByteCodeNoStck(st, cr)
-				} else {
-					node.ByteCode(st, cr)
+				if cerr := node.Compile(st, cr, s.Mode == "discard"); cerr != nil {
+					o["kind"] = "cerr"
+					o["msg"] = cerr.Error()
+					return
 				}
 				phase = "run"
 				v, err := virtM.Run(s.Mode != "discard")
@@ -219,6 +220,7 @@ func (r *runner) runSession(s session) M {
 		o["out"] = chars(out)
 		o["steps"], o["peak"] = steps, peak
 		o["cs"] = []int{csBefore, len(cs)}
+		o["ds"] = []int{dsBefore, len(ds)}
 		if o["kind"] == "err" {
 			o["failip"] = lastIP
 		}
